@@ -204,7 +204,10 @@ def main():
   rep = vlib.Report(PROP, "proof")
   from translate import convertgen
   gen = convertgen.emit(vlib.GEN)
-  info = vlib.build_obligations(PROP, gen_files=[gen], extra_files=[os.path.join(vlib.COQ, "theories", "Link", "ConvertLink.v")])
+  from translate import relugen
+  rgen = relugen.emit(vlib.GEN)
+  info = vlib.build_obligations(PROP, gen_files=[gen, rgen], extra_files=[os.path.join(vlib.COQ, "theories", "Link", "ConvertLink.v"),
+                                                                         os.path.join(vlib.COQ, "theories", "Link", "ReluLink.v")])
   errs = rep.obligations(info, "python3 tools/translate/convertgen.py coq/gen && coqc coq/gen/ConvertGen.v && coqc coq/theories/Link/ConvertLink.v && coqc coq/theories/Properties/C12.v")
   for e in errs:
     rep.violation("obligation-" + os.path.basename(e["file"]), "proof obligation no longer checks: " + e["error"][-400:],
